@@ -1307,7 +1307,7 @@ class Step(Node):
             node.del_sources([self])
             node.detach()
 
-        self._detach_created_steps()
+        self.detach_created_steps()
 
         # Detach static file definitions.
         states = ", ".join(str(state.value) for state in FILE_STATES_BY_ROLE[FileRole.STATIC])
@@ -1341,10 +1341,12 @@ class Step(Node):
         # Drop any subprocess invocations recorded by a previous run.
         self.delete_subprocesses()
 
-    def _detach_created_steps(self):
+    def detach_created_steps(self):
         """Detach steps created by this step (e.g. via `run()`/`step()`).
 
         Called unconditionally by `reset_for_rerun()`,
+        by `Scheduler.pop_next_job()` when it dispatches this step to run its command
+        (`reset_for_rerun()` only follows after the inputs have been hashed),
         and by `mark_completed()` only when a step reaches a genuine terminal `FAILED` state
         (not on an accepted defer):
         the failed run's product steps must not linger attached even before the creator's
@@ -1429,7 +1431,7 @@ class Step(Node):
                 # opportunistically. A genuine terminal failure detaches all of them;
                 # an accepted defer (state stays PENDING) does not, since this step
                 # will run again soon and its products should stay attached until then.
-                self._detach_created_steps()
+                self.detach_created_steps()
             # An unsuccessful step is not skippable, so we're removing its hash.
             self.delete_hash()
         else:
